@@ -78,8 +78,21 @@ Fixpoint load_wc (fuel : nat) (fs : fsys) (L : limits) (p : N) (dirs : list dire
                then go rest res (errs ++ [mkErr ECycle q line]) st hits (seen ++ [q])
                else match flookup q (cache st) with
                     | Some cf =>
-                        go rest (mkRes (r_order res ++ [q]) (files_put q (f_version cf) (r_files res)))
-                           errs st (hits ++ [(q, negb (nodirs cf))]) (seen ++ [q])
+                        (* the cache saves reading and parsing; the cached journal's own includes are
+                           followed like those of a file read from disk (depth check, visited mark) *)
+                        match load_wc fuel' fs L q (f_dirs cf) st with
+                        | None => None
+                        | Some sub =>
+                            let hits' := hits ++ (q, negb (nodirs cf)) :: o_hits sub in
+                            match o_res sub with
+                            | Some sr =>
+                                go rest
+                                   (mkRes (r_order res ++ q :: r_order sr)
+                                          (files_copy (files_put q (f_version cf) (r_files res)) (r_files sr)))
+                                   (errs ++ o_errs sub) (o_st sub) hits' (seen ++ q :: o_seen sub)
+                            | None => go rest res (errs ++ o_errs sub) (o_st sub) hits' (seen ++ q :: o_seen sub)
+                            end
+                        end
                     | None =>
                         match flookup q fs with
                         | None => go rest res (errs ++ [mkErr ENotFound q line]) st hits (seen ++ [q])
